@@ -2,15 +2,16 @@
 """Builds a `go test -overlay` file that (a) injects one in-package test into /repo (or a copy) and
 (b) replaces a few gocbcore DCPAgent/ConfigSnapshot methods by scriptable hooks, so that go-dcp's real
 client functions can be run without a server. Nothing under /repo or the module cache is written.
-usage: mk_gocbcore_overlay.py <repo> <pkgdir> <testfile> <outdir>  -> prints path of overlay json"""
+usage: mk_gocbcore_overlay.py <repo> <pkgdir> <outdir> <testfile>...  -> prints path of overlay json"""
 import json, os, re, sys
-repo, pkgdir, testfile, outdir = sys.argv[1:5]
+repo, pkgdir, outdir = sys.argv[1:4]
+testfiles = sys.argv[4:]
 G = "/root/go/pkg/mod/github.com/couchbase/gocbcore/v10@v10.5.2"
 os.makedirs(outdir, exist_ok=True)
 ov = {"Replace": {}}
 # 1. the test
-dst = os.path.join(repo, pkgdir, "zz_verif_replay_test.go")
-ov["Replace"][dst] = os.path.abspath(testfile)
+for tf in testfiles:
+    ov["Replace"][os.path.join(repo, pkgdir, "zz_verif_" + os.path.basename(tf))] = os.path.abspath(tf)
 # 2. gocbcore hooks
 src = open(os.path.join(G, "dcpagent.go")).read()
 src = src.replace("""	return agent.dcp.GetVbucketSeqnos(serverIdx, state, opts, cb)
@@ -49,6 +50,12 @@ cs = cs.replace("""func (pi ConfigSnapshot) NumServers() (int, error) {
 """, """func (pi ConfigSnapshot) NumServers() (int, error) {
 	if VerifNumServers >= 0 {
 		return VerifNumServers, nil
+	}
+""")
+cs = cs.replace("""func (pi ConfigSnapshot) BucketUUID() string {
+""", """func (pi ConfigSnapshot) BucketUUID() string {
+	if pi.state == nil {
+		return "verif-replay-bucket"
 	}
 """)
 p = os.path.join(outdir, "configsnapshot.go"); open(p, "w").write(cs); ov["Replace"][os.path.join(G, "configsnapshot.go")] = p
